@@ -66,7 +66,9 @@ FLD_TARGET = {'cx_1': (None, None, 1, None), 'cx_4': (None, None, 4, None), 'cx_
               'long': (None, None, 4, 1), 'positional': (None, None, 4, 3), 'cx_5': (None, None, 5, None)}
 
 TEXT_LEAVES = ('pid.pid_3.cx_4.hd_1', 'PID.PID_5.XPN_2', 'long', 'pid_3.cx_4.hd_1', 'pid_5.xpn_2', 'cx_1', 'cx_4.hd_1', 'zzz_1')
-OBSERVERS = ('len', 'iter', 'repr', 'slice', 'bool', 'twice')
+# 'all' = len, iteration, repr, empty slice and truth value one after the other (reads merge into one state anyway)
+# 'deref' = the element at the end of the chain is dereferenced (.value, .to_er7(), .children), which instantiates it when missing
+OBSERVERS = ('all', 'twice', 'deref')
 
 
 def walk(root, chain):
@@ -77,12 +79,24 @@ def walk(root, chain):
 
 
 class ReadSpec(hist.Spec):
-    def __init__(self, sid, kind, level, chains, targets, init=None):
+    def __init__(self, sid, kind, level, chains, targets, init=None, built=False):
         self.sid, self.kind, self.level, self.chains, self.targets, self.init = sid, kind, level, chains, targets, init
+        self.built = built          # the initial content is created through the add_* helpers instead of being parsed
 
     def build(self):
         from hl7apy.core import Message, Segment, Field
         from hl7apy.parser import parse_message, parse_segment, parse_field
+        if self.built:
+            if self.kind == 'message':
+                r = Message('ADT_A01', version=V, validation_level=self.level)
+                r.add_segment('PID').add_field('PID_1').value = '1'
+            elif self.kind == 'segment':
+                r = Segment('PID', version=V, validation_level=self.level)
+                r.add_field('PID_1').value = '1'
+            else:
+                r = Field('PID_3', version=V, validation_level=self.level)
+                r.add_component('CX_1').value = 'I'
+            return {'root': r}
         if self.kind == 'message':
             if self.init:
                 r = parse_message(self.init, validation_level=self.level, find_groups=True)
@@ -129,7 +143,17 @@ class ReadSpec(hist.Spec):
         if op[0] == 'read':
             e = walk(r, chain)
             o = op[2]
-            if o == 'len':
+            if o == 'all':
+                len(e)
+                list(e)
+                repr(e)
+                e[0:0]
+                bool(e)
+            elif o == 'deref':
+                e.value
+                e.to_er7()
+                list(e.children)
+            elif o == 'len':
                 len(e)
             elif o == 'iter':
                 list(e)
@@ -313,7 +337,10 @@ for _s in [ReadSpec('msg-empty-T', 'message', TOLERANT, MSG_CHAINS, MSG_TARGET),
            ReadSpec('seg-empty-S', 'segment', STRICT, SEG_CHAINS, SEG_TARGET),
            ReadSpec('zseg-T', 'segment', TOLERANT, ZSEG_CHAINS, ZSEG_TARGET),
            ReadSpec('fld-empty-T', 'field', TOLERANT, FLD_CHAINS, FLD_TARGET),
-           ReadSpec('fld-parsed-T', 'field', TOLERANT, FLD_CHAINS, FLD_TARGET, 'I^^^AA')]:
+           ReadSpec('fld-parsed-T', 'field', TOLERANT, FLD_CHAINS, FLD_TARGET, 'I^^^AA'),
+           ReadSpec('msg-built-T', 'message', TOLERANT, MSG_CHAINS, MSG_TARGET, 'PID|1', built=True),
+           ReadSpec('seg-built-T', 'segment', TOLERANT, SEG_CHAINS, SEG_TARGET, 'PID|1', built=True),
+           ReadSpec('fld-built-T', 'field', TOLERANT, FLD_CHAINS, FLD_TARGET, 'I', built=True)]:
     SPECS[_s.sid] = _s
 
 
@@ -374,7 +401,9 @@ def run(tier, seed, extra):
     total = Result()
     depth = 3 if tier == 'quick' else 4
     sids = common.rotate(sorted(SPECS), seed)
-    out = hist.bfs_many(__name__, sids, depth, tier, total)
+    # the roots built through the add_* helpers differ from the parsed ones in how their first children were created: one
+    # level less is enough to reach a read and a write after that
+    out = hist.bfs_many(__name__, sids, depth, tier, total, depth_of={sid: depth - 1 for sid in sids if SPECS[sid].built})
     per = {}
     for sid in sids:
         n, sizes = out[sid]
